@@ -40,6 +40,8 @@ CATALOGUE = [
     [('d', 'a\nb'), ('f', 'a\nb/x'), ('f', 'n\n'), ('d', 'd'), ('f', 'd/\n'), ('f', '\nlead'), ('d', 't\n'), ('f', 't\n/y'), ('f', 'plain')],
     # 15: names that end in a backslash (an ordinary character on POSIX, never a separator) or in `\.`
     [('f', 'tail\\'), ('f', 'plain'), ('d', 'd'), ('f', 'd/x\\'), ('d', 'q\\'), ('f', 'q\\/z'), ('d', 'd\\.'), ('f', 'd\\./y'), ('f', 'a\\b')],
+    # 16: links that cannot be resolved: one that points to itself, two that point to each other, a dangling one (entries all the same)
+    [('f', 'a'), ('l', 'loop', 'loop'), ('d', 'd'), ('f', 'd/x'), ('l', 'd/l2', '../d/l2'), ('l', 'p', 'q'), ('l', 'q', 'p'), ('l', 'dang', 'nowhere'), ('f', 'lx')],
 ]
 
 NAME_POOL = ['a', 'b', 'A', 'ab', 'a.b', '.h', '.hd', 'x1', 'd', 'e', '[a]', 'a*']
